@@ -260,15 +260,20 @@ def neighbour_table(env, maxn):
     env.claim(not bad, "neighbour table equals the circular 8-neighbourhood for every shape up to %dx%d" % (maxn, maxn), {"bad": bad[:3]})
 
 
-@harness(P, quick=[dict(first=a, second=b, ihmax=2) for a, b in (((2, 3), (3, 2)), ((1, 4), (2, 2)), ((2, 2), (1, 4)), ((3, 2), (1, 6)), ((2, 2), (2, 3)), ((2, 3), (2, 2)))],
-         thorough=[dict(first=a, second=b, ihmax=3) for a, b in (((2, 3), (3, 2)), ((3, 2), (2, 3)), ((1, 6), (3, 2)), ((2, 2), (4, 1)))], max_paths=20000, time_budget=500, hard_timeout=900)
-def consecutive_calls(env, first, second, ihmax):
-    """history independence of the static work buffers: a call after a call with another shape gives what a
-    fresh process gives for it (C18), without memory errors (C20)."""
+@harness(P, quick=[dict(first=a, second=b, ihmax=2) for a, b in (((2, 3), (3, 2)), ((1, 4), (2, 2)), ((2, 2), (1, 4)), ((3, 2), (1, 6)), ((2, 2), (2, 3)), ((2, 3), (2, 2)))]
+         + [dict(first=(1, 4), mid=(4, 1), second=(2, 3), ihmax=2), dict(first=(1, 3), mid=(3, 1), second=(3, 3), ihmax=2), dict(first=(3, 1), mid=(1, 4), second=(3, 2), ihmax=2)],
+         thorough=[dict(first=a, second=b, ihmax=3) for a, b in (((2, 3), (3, 2)), ((3, 2), (2, 3)), ((1, 6), (3, 2)), ((2, 2), (4, 1)))]
+         + [dict(first=(1, 4), mid=(4, 1), second=(4, 2), ihmax=2), dict(first=(4, 1), mid=(1, 4), second=(2, 4), ihmax=2), dict(first=(2, 2), mid=(1, 6), second=(3, 2), ihmax=3)], max_paths=20000, time_budget=500, hard_timeout=900)
+def consecutive_calls(env, first, second, ihmax, mid=None):
+    """history independence of the static work buffers: a call after one (or two: `mid`) calls with other shapes
+    gives what a fresh process gives for it (C18), without memory errors (C20)."""
     H = max(ihmax - 1, 1)
-    rng = np.random.default_rng(first[0] * 10 + first[1])
-    v1 = np.round(rng.random(first) * H, 2)
-    v1.flat[0], v1.flat[-1] = 0.0, float(H)
+    earlier = []
+    for shp in ([first] + ([mid] if mid else [])):
+        rng = np.random.default_rng(shp[0] * 10 + shp[1])
+        v = np.round(rng.random(shp) * H, 2)
+        v.flat[0], v.flat[-1] = 0.0, float(H)
+        earlier.append(v)
     if env.sym:
         v2 = np.empty(second, dtype=object)
         flat = []
@@ -280,7 +285,8 @@ def consecutive_calls(env, first, second, ihmax):
         g, f = ir()
         it = L.Interp(g, f, S.ctx())
         try:
-            sym_partition(it, [list(r) for r in v1], ihmax)
+            for v in earlier:
+                sym_partition(it, [list(r) for r in v], ihmax)
             lab_after, lev = sym_partition(it, [list(r) for r in v2], ihmax)
             fresh = L.Interp(g, f, S.ctx())
             lab_fresh, _ = sym_partition(fresh, [list(r) for r in v2], ihmax)
@@ -293,6 +299,6 @@ def consecutive_calls(env, first, second, ihmax):
         for idx in np.ndindex(second):
             v2[idx] = env.real("y_%d_%d" % idx, lo=0.0, hi=float(H))
         env.assume(v2.min() == 0 and v2.max() == H)
-        after = run_driver([(np.array(v1, dtype=float), ihmax), (v2, ihmax)])[1]
+        after = run_driver([(np.array(v, dtype=float), ihmax) for v in earlier] + [(v2, ihmax)])[-1]
         fresh = run_driver([(v2, ihmax)])[0]
         env.claim(after == fresh, "partition after a call on another shape equals the partition from a fresh state", {"after": after, "fresh": fresh})
